@@ -209,6 +209,10 @@ type c17GReader struct {
 	alive      bool
 }
 
+func (g *c17GReader) open() {
+	g.openOnce.Do(func() { close(g.openCh) })
+}
+
 func (g *c17GReader) callback(fi int) OnDataFunc {
 	return func(u *unit.Unit) error {
 		if g.removed.Load() {
@@ -216,8 +220,9 @@ func (g *c17GReader) callback(fi int) OnDataFunc {
 			return nil
 		}
 		g.entered <- c17Event{fi: fi, u: u}
-		if !g.open.Load() {
-			<-g.gate
+		select {
+		case <-g.gate: // released by the harness (operation R)
+		case <-g.openCh: // removal in progress: callbacks no longer block
 		}
 		g.exited <- struct{}{}
 		return nil
@@ -321,6 +326,7 @@ func (h *c17Gated) opAdd(subs []int) {
 		subs:    map[int]bool{},
 		entered: make(chan c17Event),
 		gate:    make(chan struct{}),
+		openCh:  make(chan struct{}),
 		exited:  make(chan struct{}),
 		lastN:   map[int]int{},
 		alive:   true,
@@ -388,8 +394,7 @@ func (h *c17Gated) opRemove(g *c17GReader) {
 	select {
 	case <-done:
 		// give queued callbacks a chance to show up as "late", then report
-		g.open.Store(true)
-		close(g.gate)
+		g.open()
 		deadline := time.After(50 * time.Millisecond)
 	drain:
 		for {
@@ -407,8 +412,7 @@ func (h *c17Gated) opRemove(g *c17GReader) {
 
 	// let the blocked callback return; until the reader goroutine notices the closed buffer it may still run
 	// callbacks of already queued units: they must come in queue order, and all of them before RemoveReader returns.
-	g.open.Store(true)
-	g.gate <- struct{}{}
+	g.open()
 	pendingExit := 1
 	for {
 		select {
@@ -462,11 +466,7 @@ func TestVerifC17Delivery(t *testing.T) {
 				if g.removed.Load() {
 					continue
 				}
-				g.open.Store(true)
-				func() {
-					defer func() { recover() }() //nolint:errcheck
-					close(g.gate)
-				}()
+				g.open()
 				if g.done == nil {
 					done := make(chan struct{})
 					g.done = done
